@@ -16,9 +16,10 @@ CONSTANTS
   BurstSizes = {1, 2}
   PskIds = {}
   PskValues = {"none"}
-  Deviations = {"F12"}
+  Deviations = {"F12", "F14"}
   MaxApps = 0
   Depth = 1000
+  BootSize = 0
   WProgress = 60
   WPropose = 30
   WCommit = 35
